@@ -1,6 +1,7 @@
 package main
 
 import (
+	"go/token"
 	"fmt"
 	"go/types"
 	"regexp"
@@ -199,9 +200,11 @@ func runC13(r *Run, p *Prog) {
 			})
 			// the reply struct: Alloc passed to Call as out parameter
 			var rep *ssa.Alloc
+			var callInstr ssa.Instruction
 			for _, cs := range callsNamed(f, false, "varlink.Connection.Call") {
 				a := cs.Common.Args
 				rep = unwrapAlloc(a[len(a)-1])
+				callInstr = cs.Instr
 			}
 			if rep == nil {
 				r.Unresolved("M1", name+": reply value passed to Call")
@@ -239,6 +242,18 @@ func runC13(r *Run, p *Prog) {
 						want := strip(T.T(rep)) + "." + st.Field(mi).Name()
 						guarded := hasFact(T.FactsAt(s.Block()), "NE", T.T(prm), "nil")
 						ok = got == want && guarded
+						// a member of a copy of the whole reply taken after the decode (`info := serviceInfo(rep)`)
+						if fv, isField := s.Val.(*ssa.Field); isField && !ok && fv.Field == mi && callInstr != nil {
+							x := fv.X
+							if ct, isCT := x.(*ssa.ChangeType); isCT {
+								x = ct.X
+							}
+							if ld, isLoad := x.(*ssa.UnOp); isLoad && ld.Op == token.MUL && ld.X == ssa.Value(rep) {
+								after := callInstr.Block() == ld.Block() && instrIndex(callInstr) < instrIndex(ld) ||
+									callInstr.Block() != ld.Block() && callInstr.Block().Dominates(ld.Block())
+								ok = after && guarded
+							}
+						}
 						detail = fmt.Sprintf("*%s = %s (expected %s), nil-guarded: %v", prm.Name(), got, want, guarded)
 					}
 				}
